@@ -76,6 +76,10 @@ type c19Req struct {
 	Agg   string `json:"agg,omitempty"` // "", count:g, sum:v:g, quantile:v, unique:g, max:v
 	Hist  uint64 `json:"hist,omitempty"`
 	Asc   bool   `json:"asc"`
+	// From / To: offsets from the smallest document time (0 / 0 = the whole time axis); the documents sit at
+	// offsets 0, 1, 2, so range ends coincide with the oldest and the newest document of the fractions
+	From int `json:"from,omitempty"`
+	To   int `json:"to,omitempty"`
 }
 
 type c19Job struct {
@@ -219,6 +223,9 @@ func c19Handle(raw json.RawMessage) any {
 		order = seq.DocsOrderAsc
 	}
 	params := processor.SearchParams{AggQ: aggQ, HistInterval: job.Req.Hist, From: 0, To: seq.MID(vfrac.MaxMID), Limit: math.MaxInt32, WithTotal: false, Order: order}
+	if job.Req.From != 0 || job.Req.To != 0 {
+		params.From, params.To = seq.MID(vfrac.BaseMID+job.Req.From-1), seq.MID(vfrac.BaseMID+job.Req.To-1)
+	}
 	as := fracmanager.MustStartAsync(fracmanager.AsyncSearcherConfig{DataDir: filepath.Join(job.Dir, "async_searches"), Parallelism: 1}, c19MP{}, fm)
 	const id = "req-1"
 	if job.Start {
@@ -547,6 +554,10 @@ func TestVerifC19(t *testing.T) {
 		for _, asc := range []bool{false, true} {
 			reqs = append(reqs, c19Req{Query: q, Asc: asc}, c19Req{Query: q, Asc: asc, Hist: 2})
 		}
+		// time ranges whose ends are document times (From / To are offset+1): [0,0] [0,1] [1,2] [2,2] [1,1]
+		for ri, rg := range [][2]int{{1, 1}, {1, 2}, {2, 3}, {3, 3}, {2, 2}} {
+			reqs = append(reqs, c19Req{Query: q, Asc: ri%2 == 0, Hist: uint64(ri % 2 * 2), From: rg[0], To: rg[1]})
+		}
 		for _, a := range []string{"count:g", "unique:g", "sum:v:g", "max:v", "quantile:v"} {
 			reqs = append(reqs, c19Req{Query: q, Agg: a, Hist: uint64(len(a) % 3), Asc: len(a)%2 == 0})
 		}
@@ -575,7 +586,7 @@ func TestVerifC19(t *testing.T) {
 	})
 	ev := r.Get("evaluations")
 	r.Finish(t, "fault_enumeration",
-		fmt.Sprintf("%d corpora (1-3 fractions, active and sealed) x %d requests (3 queries x {plain both orders, histogram, count/unique/sum/max-with-interval/quantile aggregations}); per request: async result at Done vs synchronous Searcher.SearchDocs with the same parameters (limit MaxInt32, no total); then every prefix of the journal of file operations since the async searcher started (.info / .qpr atomic writes incl. torn .tmp contents at stride 41) is restarted in a fresh child, which must resume to Done with the same result, or not know the request when the crash precedes the return of StartSearch", len(corpora), len(reqs)),
+		fmt.Sprintf("%d corpora (1-3 fractions, active and sealed) x %d requests (4 queries x {plain both orders, histogram, 5 time ranges whose ends are document times, count/unique/sum/max-with-interval/quantile aggregations}); per request: async result at Done vs synchronous Searcher.SearchDocs with the same parameters (limit MaxInt32, no total); then every prefix of the journal of file operations since the async searcher started (.info / .qpr atomic writes incl. torn .tmp contents at stride 41) is restarted in a fresh child, which must resume to Done with the same result, or not know the request when the crash precedes the return of StartSearch", len(corpora), len(reqs)),
 		map[string]any{
 			"states":                        r.DistinctCount("nontrivial"),
 			"transitions":                   ev,
